@@ -84,6 +84,7 @@ class Universe:
         prelude_extra: str = "",
         root_base: str = "ASTNode",
         prelude: str | None = None,
+        frozen: bool = True,
     ) -> None:
         self.name = name
         self.specs = {s.name: s for s in specs}
@@ -95,8 +96,9 @@ class Universe:
             src += "from __future__ import annotations\n"
         src += PRELUDE_PLAIN if prelude is None else prelude
         src += prelude_extra + "\n"
+        self.frozen = frozen
         for s in specs:
-            src += self.render_class(s) + "\n"
+            src += self.render_class(s, frozen) + "\n"
         self.source = src
         self.module = types.ModuleType(name)
         self.module.__dict__["__name__"] = name
@@ -120,8 +122,9 @@ class Universe:
         return self
 
     @staticmethod
-    def render_class(s: CS) -> str:
-        deco = "@dataclass(frozen=True" + (", slots=True" if s.slots else "") + ")"
+    def render_class(s: CS, frozen: bool = True) -> str:
+        args = (["frozen=True"] if frozen else []) + (["slots=True"] if s.slots else [])
+        deco = "@dataclass" + (f"({', '.join(args)})" if args else "")
         out = f"{deco}\nclass {s.name}({', '.join(s.bases)}):\n"
         lines = [f.render() for f in s.fields]
         if s.body:
